@@ -19,7 +19,7 @@ FEATS = ("const", "setc", "tup", "dflt", "kwd", "lam", "nest", "gx", "dcall")
 NESTS = (["alpha", "beta", "gamma", "delta"], ["alpha", "beta", "gamma", "epsilon"], ["north", "south", "east", "west", "up"])
 
 
-def gen_prog(rng, nm=None, nh=None, nv=None, cyc_rate=0.15, hidden_rate=0.08, aux_rate=0.3, explicit_rate=0.15, chain_rate=0.6, lambda_rate=0.25, twin_rate=0.3):
+def gen_prog(rng, nm=None, nh=None, nv=None, cyc_rate=0.15, hidden_rate=0.08, aux_rate=0.3, explicit_rate=0.15, chain_rate=0.6, lambda_rate=0.25, twin_rate=0.3, maux_rate=0.2):
     nm = nm or rng.randint(2, 4)
     nh = rng.randint(0, 3) if nh is None else nh
     nv = rng.randint(0, 3) if nv is None else nv
@@ -27,6 +27,8 @@ def gen_prog(rng, nm=None, nh=None, nv=None, cyc_rate=0.15, hidden_rate=0.08, au
     names = ["V%d" % i for i in range(1, nv + 1)] + ["h%d" % i for i in range(1, nh + 1)] + ["m%d" % i for i in range(1, nm + 1)]
     for n in names:
         where = "aux" if (n[0] in "Vh" and rng.random() < aux_rate) else "mod"
+        if n[0] == "m" and n != "m%d" % nm and rng.random() < maux_rate:
+            where = "aux"                 # memento functions of the helper module (reached as `aux.mK` from `mod`)
         if n[0] == "V":
             val = rng.choice([1, 2, "s", [1, 2], {"a": 1, "b": [2]}, 1.5, True, None, "UNSUPPORTED", "DICT_FROM_SET0"])
             defs[n] = dict(kind="var", where=where, value=val)
